@@ -244,6 +244,7 @@ impl Prop for C13 {
             max_tags: 2,
             extreme_ids: false,
             tag_values: 0,
+            tag_names: 0,
         };
         let n_random = tier.pick(0usize, 12);
         (
